@@ -228,7 +228,20 @@ def gen_vars(rnd, m, misaligned=False, dtypes=True, encodable_only=False):
         v['shape'] = v['shape'] if len(v['shape']) < 2 else [9]
     if rnd.random() < .35:
         rename_some(rnd, out)
+    # round 6 (seeded C06-12): variable names are arbitrary blank-free tokens, not identifiers - punctuation that a name
+    # sanitiser would touch, and names that differ ONLY in such a character (they must stay different arrays in the file)
+    if r2.random() < .3:
+        style = r2.choice(PUNCT_NAMES)
+        ren = {f'N{k}': nm for k, nm in enumerate(style)}
+        for v in out:
+            v['name'] = ren.get(v['name'], v['name'])
+            if v.get('attr') in ren:
+                v['attr'] = ren[v['attr']]
     return out
+
+
+PUNCT_NAMES = [['sigma-xx', 'strain.eq', 'T[K]', 'u/L'], ['flux-x', 'flux.x', 'flux_x', 'flux:x'],
+               ['von_Mises', 'von-Mises', 'vonMises', 'VON-MISES'], ['p+', 'p-', 'p', 'p#1']]
 
 
 def rename_some(rnd, vs):
@@ -1496,7 +1509,7 @@ def history_case(ctx, rnd, pending, ids_setter=False):
     if rnd.random() < .3:          # variable names that are prefixes of each other
         ren = {'N0': 'PART1', 'N1': 'PART10', 'N2': 'PART', 'N3': 'PART1_'}
         for v in vs:
-            v['name'] = ren[v['name']]
+            v['name'] = ren.get(v['name'], v['name'])
             if v.get('attr') in ren:
                 v['attr'] = ren[v['attr']]
         m['dims'].append('variable names prefixes of each other')
